@@ -95,6 +95,7 @@ def executes(spec, case):
 #     whether a failing case shows that root cause. Consulted in the fixed order ROOT_CAUSES.
 ROOT_CAUSES = ['extract:derived-type-imported-by-enclosing-module', 'extract:host-array-referenced-in-several-forms',
                'extract:host-parameter-becomes-dummy-argument', 'outline:array-extent-variable-not-passed',
+               'outline:variable-only-enquired-about-not-passed',
                'transform_file:keyword-arguments-to-external-procedure', 'transform_file:extracted-function-undeclared-in-caller']
 
 _HEAD = """module tmod
@@ -169,6 +170,19 @@ contains
   end subroutine kernel
 end module kmod
 """),
+    'outline:variable-only-enquired-about-not-passed': ('outline', {}, """module kmod
+  implicit none
+contains
+  subroutine kernel(n, za, y)
+    integer, intent(in) :: n
+    real(kind=8), intent(inout) :: za(6)
+    integer, intent(inout) :: y
+!$loki outline
+    y = y + size(za)
+!$loki end outline
+  end subroutine kernel
+end module kmod
+"""),
     'transform_file:keyword-arguments-to-external-procedure': ('trafo_file', {'extract_internals': True}, """subroutine kernel(n, y)
   implicit none
   integer, intent(in) :: n
@@ -207,7 +221,7 @@ def defect_present(name):
             sf = _parse(text)
             _transform(sf, ep, opts)
             res = harness.native().build_run('probe', [('kmod.f90', sf.to_fortran() + '\n')], None, run=False)
-            _present[name] = res.stage.startswith('compile')
+            _present[name] = res.stage != 'compiled'
         except Exception:  # noqa: loki raises on the probe program = the defect is present
             _present[name] = True
     return _present[name]
@@ -238,6 +252,9 @@ def exclusions(spec):
         if fl.get('reg_dimvar') and fl.get('reg_dimvar_implicit') and defect_present('outline:array-extent-variable-not-passed'):
             fl['reg_dimvar_implicit'] = False
             why.append('outline: extent variable of a region array not used in the region -> not passed')
+        if fl.get('reg_inquiry_only') and defect_present('outline:variable-only-enquired-about-not-passed'):
+            fl['reg_inquiry_only'] = False
+            why.append('outline: variable that the region only enquires about (SIZE/LBOUND/UBOUND) -> not passed')
     if not why:
         return spec, []
     return dict(spec, flags=fl, opts=opts), why
@@ -295,6 +312,9 @@ def diagnose(spec):
                     for s in FindVariables().visit(v.dimensions):
                         if s.name.lower() not in visible and not getattr(s, 'parent', None):
                             found.add('outline:array-extent-variable-not-passed')
+            args = {a.name.lower() for a in r.arguments}
+            if any(v.type.intent and v.name.lower() not in args for v in r.variables):
+                found.add('outline:variable-only-enquired-about-not-passed')
         if spec['ep'] == 'trafo_file' and app['extract'] and r.name.lower() in old_names:
             declared = {v.name.lower() for v in r.variables}
             for c in FindNodes(CallStatement).visit(r.body):
@@ -322,8 +342,16 @@ class Check(GI.XCheck):
         return bad
 
     def compile_only(self, spec):
-        text, cls = super().compile_only(spec)
-        return text, ('candidate-does-not-compile' if cls else None)
+        from ..fprog import harness
+        case = self.gen.build(spec)
+        rendered = harness.render_case(case)
+        alltext = '\n'.join(r['text'] for r in rendered)
+        try:
+            cand_files, _ = self.apply_fn(spec, rendered, case['meta'])
+        except Exception:  # noqa
+            return alltext, None
+        res = harness.native().build_run('cc', cand_files, None, run=False)
+        return alltext, ('candidate-does-not-compile' if res.stage != 'compiled' else None)
 
     def evaluate(self, spec, known_text=None):
         out = super().evaluate(spec, known_text=known_text)
